@@ -25,8 +25,10 @@ import CB.Props.C04
 import CB.Props.C05
 import CB.Props.C06
 import CB.Props.C07
+import CB.Props.C08
 import CB.Props.C10
 import CB.Props.C14
+import CB.Props.C16
 import CB.Props.C19
 import CB.Props.C20
 import CB.Lemmas.C02LimbDiv
@@ -413,6 +415,66 @@ theorem rem_limb_eq_div_rem_limb_partial (H_recip : Div.HRecip) {d : Nat} (hd0 :
     {u : List Nat} (hu : WF u) : Div.remLimb u d = (Div.divRemLimb u d).2 := by
   have h := P02.divRemLimb_exact_partial H_recip hd0 hd hu
   rw [h.2.2, h.2.1]
+
+
+/-! ## §6 further routes: Int, inverters, Montgomery constants, encodings -/
+
+/-- `Int::cmp_vartime` = `Int::cmp` (both are the order on the signed values, T06.3) -/
+theorem int_cmp_ct_eq_vartime {a b : List Nat} (ha : WF a) (hb : WF b) (h : a.length = b.length) (hne : a ≠ []) :
+    icmpVartime a b = icmp a b := by
+  rw [(P06.int_cmp_spec ha hb h hne).1, (P06.int_cmp_spec ha hb h hne).2]
+
+/-- the `Int` wrapping forms ARE the `Uint` forms on the two's-complement limbs (definitional): `Wrapping<Int>`,
+    `WrappingAdd/Sub for Int` and `wrapping_neg_if` forward to the unsigned chains -/
+theorem int_forms_forward (a b : List Nat) (c : Nat) :
+    SInt.iWrappingAdd a b = wrappingAdd a b ∧ SInt.iWrappingSub a b = wrappingSub a b ∧
+    SInt.iWrappingNegIf a c = wrappingNegIf a c ∧ SInt.iWrappingNeg a = (SInt.iOverflowingNeg a).1 :=
+  ⟨rfl, rfl, rfl, rfl⟩
+
+/-- precomputed inverter, constant-time vs vartime (`SafeGcdInverter::inv` vs `inv_vartime` on the SAME
+    precomputed state; the one-shot `inv_odd_mod` is `SafeGcdInverter::new(m, ONE).inv(a)` in model and code):
+    same `is_some`, same value — GIVEN `H_divsteps_done` for both loops (C10's carried hypothesis) -/
+theorem inverter_ct_eq_vartime_partial (sat : Nat) (hsat : 1 ≤ sat) (mw aw vw : List Nat)
+    (hmw : WF mw) (haw : WF aw) (hvw : WF vw) (lm : mw.length = sat) (la : aw.length = sat) (lv : vw.length = sat)
+    (hodd : val mw % 2 = 1) (hadj : val aw < val mw)
+    (H_divsteps_done : ((SafeGcd.Inverter.new sat mw aw).inv sat vw).gZero = true)
+    (H_divsteps_done_vartime : ((SafeGcd.Inverter.new sat mw aw).invVartime sat vw).gZero = true) :
+    ((SafeGcd.Inverter.new sat mw aw).inv sat vw).isSome = ((SafeGcd.Inverter.new sat mw aw).invVartime sat vw).isSome ∧
+    (((SafeGcd.Inverter.new sat mw aw).inv sat vw).isSome = true →
+      val ((SafeGcd.Inverter.new sat mw aw).inv sat vw).value =
+        val ((SafeGcd.Inverter.new sat mw aw).invVartime sat vw).value) :=
+  P10.safegcd_ct_vartime_agree_partial sat hsat mw aw vw hmw haw hvw lm la lv hodd hadj
+    H_divsteps_done H_divsteps_done_vartime
+
+/-- const-evaluated Montgomery constants (`impl_modulus!`) = `MontyParams::new` = `new_vartime` =
+    `BoxedMontyParams::new`, all six fields, every odd modulus incl. 1 (T08.2) -/
+theorem monty_const_eq_runtime (n m : Nat) (hm : m < B ^ n) (hodd : m % 2 = 1) :
+    Monty.paramsNew (toLimbs n m) = Monty.paramsNewVartime (toLimbs n m) ∧
+    Monty.paramsNew (toLimbs n m) = Monty.paramsConst (toLimbs n m) ∧
+    Monty.paramsNew (toLimbs n m) = Monty.paramsBoxed (toLimbs n m) :=
+  P08.constructors_agree n m hm hodd
+
+/-- byte encodings: little endian reversed = big endian; the boxed decoder at precision `64·n` accepts exactly
+    what the fixed `n`-limb decoder accepts for `8·n` bytes and returns the same limbs (`n` of them) -/
+theorem encoding_routes {l : List Nat} (h : WF l) :
+    Encoding.uintToBeBytes l = (Encoding.uintToLeBytes l).reverse := P16.be_is_reversed_le h
+
+theorem boxed_decode_eq_fixed {n : Nat} {bs : List Nat} (hb : Encoding.Bytes bs) (hn : 1 ≤ n)
+    (hl : bs.length = 8 * n) :
+    Encoding.boxedFromBeSlice bs (64 * n) = .ok (toLimbs n (Encoding.beVal bs)) ∧
+    Encoding.fromBeSlice n bs = some (toLimbs n (Encoding.beVal bs)) := by
+  have hlt : Encoding.beVal bs < 2 ^ (64 * n) := by
+    rw [Encoding.beVal_eq]
+    have := Encoding.leVal_lt (Encoding.Bytes_reverse.mpr hb)
+    rw [List.length_reverse, hl] at this
+    have e : (256 : Nat) ^ (8 * n) = 2 ^ (64 * n) := by
+      rw [show (256 : Nat) = 2 ^ 8 from by decide, ← Nat.pow_mul]; congr 1; omega
+    rwa [e] at this
+  have h2 := (P16.boxed_ok_iff bs (64 * n) hb).2.1 (by omega) hlt
+  have hm : max 1 ((64 * n + 63) / 64) = n := by omega
+  rw [hm] at h2
+  refine ⟨h2, ?_⟩
+  rw [P16.decode_be_exact hb, if_pos hl]
 
 /-! ## non-vacuity: the hypotheses are met by concrete non-trivial operands -/
 
